@@ -146,3 +146,186 @@ def _one(job):
     _key, argv, paths, stdin = job
     rc, out, err = run_main(beacon, argv + (["-"] if stdin is not None else paths), stdin=stdin)
     return rc, out, err
+
+
+# --------------------------------------------------------------------------- CliTools.tla: the single-input tools
+def _run_tool(mod_main, prog, argv):
+    out, err = io.StringIO(), io.StringIO()
+    old = sys.argv
+    sys.argv = [prog] + argv
+    try:
+        with contextlib.redirect_stdout(out), contextlib.redirect_stderr(err):
+            try:
+                rc = mod_main()
+            except SystemExit as e:
+                rc = ("SystemExit", e.code)
+            except Exception as e:  # noqa: BLE001
+                rc = (type(e).__name__,)
+    finally:
+        sys.argv = old
+        import logging
+
+        logging.getLogger().handlers.clear()
+    return rc, out.getvalue(), err.getvalue()
+
+
+def _tools_model(ctx):
+    cfg = "CONSTANTS\n MaxHits = %d\n WRITEALL = %s\nSPECIFICATION Spec\nINVARIANT ArtifactOutput\nPROPERTY Terminates\nCHECK_DEADLOCK FALSE\n"
+    dot = ctx.outdir / "clitools.dot"
+    r = ctx.tlc("CliTools", cfg % (3, "FALSE"), name="clitools-model", workers=2, extra=["-dump", "dot,actionlabels", str(dot)])
+    core.require_clean(r, "CliTools")
+    core.require_coverage(r, ["Hit", "Finish"])
+    r0 = ctx.tlc("CliTools", cfg % (2, "TRUE"), name="clitools-writeall", workers=1, coverage=False)
+    if r0.ok:
+        raise core.MachineryError("CliTools.tla accepts a beacon-artifact that writes every payload (vacuous?)")
+    g = tlaval.Graph(dot)
+    dot.unlink()
+    return g
+
+
+def artifact_cli_part(ctx):
+    """beacon-artifact: only the first payload found is written; exit status / message (CliTools.tla)"""
+    import struct
+
+    from dissect.cobaltstrike import artifact
+
+    g = _tools_model(ctx)
+    rng = random.Random(ctx.seed + 78)
+    payloads = {"p1": b"PAYLOAD-ONE" * 3, "p2": bytes(range(256)), "p3": b"\x00"}
+    d = tempfile.mkdtemp(prefix="vt-cli-")
+    n = 0
+    try:
+        for st in g.nodes.values():
+            if st["exit"] == "running":
+                continue
+            hits = list(st["hits"])
+            data = bytearray(b"\xff" * rng.choice([0, 5, 40]))
+            planted = []
+            for h in hits:
+                key = bytes(rng.randrange(1, 256) for _ in range(4))
+                pl = payloads[h]
+                planted.append(len(data))
+                data += struct.pack("<II", len(data) + 16, len(pl)) + key + b"HINTHINT" + bytes(c ^ key[i % 4] for i, c in enumerate(pl)) + b"\xff" * rng.choice([1, 9])
+            data = bytes(data)
+            if [p for p in range(len(data) - 3) if struct.unpack_from("<I", data, p)[0] == p + 16] != planted:
+                continue  # precondition: headers exactly at the planted offsets
+            inp, outp = os.path.join(d, "in.bin"), os.path.join(d, "out.bin")
+            with open(inp, "wb") as fh:
+                fh.write(data)
+            if os.path.exists(outp):
+                os.unlink(outp)
+            rc, _so, _se = _run_tool(artifact.main, "beacon-artifact", [inp, "-o", outp])
+            ctx.evaluations += 1
+            written = open(outp, "rb").read() if os.path.exists(outp) else b""
+            want_out = b"".join(payloads[h] for h in st["out"])
+            want_rc = 0 if st["exit"] == "0" else f"{inp}: No ArtifactKit payload found"
+            if rc != want_rc or written != want_out:
+                ctx.violation("beacon-artifact disagrees with CliTools.tla", {"op": "beacon-artifact", "failed": "exit" if rc != want_rc else "output"},
+                              {"hits": hits, "got_exit": str(rc)[:100], "expected_exit": str(want_rc)[:100], "written_len": len(written), "expected_len": len(want_out)})
+            ctx.count_distinct(("cli-artifact", tuple(hits)))
+            n += 1
+    finally:
+        shutil.rmtree(d, ignore_errors=True)
+    ctx.traces += n
+    ctx.notes["cli_artifact"] = {"hit_sequences_replayed": n}
+
+
+def xordecode_cli_part(ctx):
+    """beacon-xordecode: decision table of CliTools.tla (auto detection / forced nonce offset)"""
+    from dissect.cobaltstrike import xordecode
+    from vt.ref import pe as refpe
+    from vt.ref import xorenc
+
+    tab = core.tlc_table(ctx, "CliToolsIO", " MaxHits = 1\n WRITEALL = FALSE", name="clitools-table")
+    rng = random.Random(ctx.seed + 79)
+    d = tempfile.mkdtemp(prefix="vt-cli-")
+    n = 0
+    try:
+        for row in tab["xor"]:
+            for _rep in range(3):
+                if row["kind"] == "xorenc":
+                    img, _info = refpe.build_pe(arch=rng.choice(["x86", "x64"]), n_sections=rng.choice([1, 2]), section_size=0x200)
+                    img = bytes(img)[: len(img) - rng.randrange(4)]
+                    stub = b"\x90" * rng.choice([5, 20, 61]) + b"\xff\xff\xff"
+                    data = xorenc.stage(stub, bytes(rng.randrange(1, 255) for _ in range(4)), img)
+                    off = len(stub)
+                else:
+                    data = bytes(rng.randrange(1, 255) for _ in range(rng.choice([64, 300, 2000])))
+                    img, off = None, rng.choice([0, 10, 33])
+                inp, outp = os.path.join(d, "in.bin"), os.path.join(d, "out.bin")
+                with open(inp, "wb") as fh:
+                    fh.write(data)
+                if os.path.exists(outp):
+                    os.unlink(outp)
+                argv = [inp, "-o", outp] + (["-n", str(off)] if row["nonce"] == "forced" else [])
+                rc, _so, _se = _run_tool(xordecode.main, "beacon-xordecode", argv)
+                ctx.evaluations += 1
+                written = open(outp, "rb").read() if os.path.exists(outp) else b""
+                exp = row["expect"]
+                want_rc = 0 if exp["exit"] == "0" else (exp["exit"],)
+                want_out = {"decoded": img, "decoded_at_forced_offset": img if img is not None else xorenc.decode(data[off + 8 :], data[off : off + 4]), "nothing": b""}[exp["out"]]
+                if rc != want_rc or written != want_out:
+                    ctx.violation("beacon-xordecode disagrees with CliTools.tla", {"op": "beacon-xordecode", "failed": "exit" if rc != want_rc else "output"},
+                                  {"kind": row["kind"], "nonce": row["nonce"], "got_exit": str(rc)[:100], "expected_exit": str(want_rc), "written_len": len(written), "expected_len": len(want_out)})
+                ctx.count_distinct(("cli-xordecode", row["kind"], row["nonce"], _rep))
+                n += 1
+    finally:
+        shutil.rmtree(d, ignore_errors=True)
+    ctx.traces += n
+    ctx.notes["cli_xordecode"] = {"rows_replayed": n}
+
+
+def c2profile_cli_part(ctx):
+    """c2profile-dump: decision table of CliTools.tla (profile / beacon input, -a, output type)"""
+    from dissect.cobaltstrike import beacon, c2profile
+
+    tab = core.tlc_table(ctx, "CliToolsIO", " MaxHits = 1\n WRITEALL = FALSE", name="clitools-table")
+    rng = random.Random(ctx.seed + 80)
+    d = tempfile.mkdtemp(prefix="vt-cli-")
+    blk = b"".join(tlv.http_config(b"\x30\x81" + bytes(range(1, 160)))) + b"\x00\x00"
+    files = {
+        "profile_ok": b'set sleeptime "5000";\nhttp-get {\n    set uri "/a";\n    client {\n        metadata {\n            base64;\n            header "Cookie";\n        }\n    }\n}\n',
+        "profile_bad": b'set sleeptime "5000"\nhttp-get {{ }\n',
+        "beacon_default_key": bytes(rng.randrange(256) for _ in range(100)) + tlv.xor1(blk, 0x2E) + b"\x01" * 30,
+        "beacon_other_key": bytes(rng.randrange(256) for _ in range(100)) + tlv.xor1(blk, 0x5A) + b"\x01" * 30,
+        "no_beacon": b"\x41" * 500,
+    }
+    n = 0
+    try:
+        paths = {}
+        for k, v in files.items():
+            if k.startswith("beacon") and c01.needle_hits(v) != {(0x2E if k == "beacon_default_key" else 0x5A, 100)}:
+                raise core.MachineryError("accidental configuration header in a c2profile-dump input")
+            paths[k] = os.path.join(d, k + ".bin")
+            with open(paths[k], "wb") as fh:
+                fh.write(v)
+        paths["missing"] = os.path.join(d, "does-not-exist")
+        for row in tab["prof"]:
+            argv = [paths[row["inp"]], "-t", row["type"]] + (["-b"] if row["beacon"] else []) + (["-a"] if row["all"] else [])
+            rc, so, _se = _run_tool(c2profile.main, "c2profile-dump", argv)
+            ctx.evaluations += 1
+            exp = row["expect"]
+            want_rc = {"None": None, "1": 1}.get(exp["exit"], (exp["exit"],))
+            bad = None
+            if rc != want_rc:
+                bad = "exit"
+            elif exp["out"] == "nothing":
+                bad = "output" if so.strip() else None
+            else:
+                if row["beacon"]:
+                    prof = c2profile.C2Profile.from_beacon_config(beacon.BeaconConfig.from_path(paths[row["inp"]], all_xor_keys=True))
+                else:
+                    prof = c2profile.C2Profile.from_text(files[row["inp"]].decode())
+                want = {"pretty": lambda: prof.tree.pretty() + "\n", "ast": lambda: str(prof.tree) + "\n", "c2profile": lambda: prof.as_text() + "\n",
+                        "properties": lambda: "".join(f"{k} {v}\n" for k, v in prof.properties.items())}[row["type"]]()
+                if so != want or not so.strip():
+                    bad = "output"
+            if bad:
+                ctx.violation("c2profile-dump disagrees with CliTools.tla", {"op": "c2profile-dump", "failed": bad},
+                              {"input": row["inp"], "argv": argv[1:], "got_exit": str(rc)[:100], "expected_exit": str(want_rc), "stdout_len": len(so)})
+            ctx.count_distinct(("cli-c2profile", row["inp"], row["beacon"], row["all"], row["type"]))
+            n += 1
+    finally:
+        shutil.rmtree(d, ignore_errors=True)
+    ctx.traces += n
+    ctx.notes["cli_c2profile"] = {"rows_replayed": n}
